@@ -142,6 +142,8 @@ struct ThreadLocalCache {
     free_lists: Vec<Vec<NonNull<u8>>>,
     /// Lazy synchronization counter
     frag_inc: isize,
+    /// Blocks handed out from this cache (by any pool of the thread) and not yet freed
+    live_blocks: usize,
     /// Reference to global pool for fallback
     global_pool: Weak<ThreadLocalMemoryPool>,
     /// Statistics (optional)
@@ -215,6 +217,7 @@ impl ThreadLocalCache {
             retired_areas: Vec::new(),
             free_lists: vec![Vec::new(); TLS_SIZE_CLASSES.len()],
             frag_inc: 0,
+            live_blocks: 0,
             global_pool,
             stats,
         }
@@ -422,7 +425,9 @@ impl ThreadLocalMemoryPool {
             
             // Allocate using thread-local cache
             if let Some(ref mut cache) = *cache_opt {
-                cache.allocate(size, &self.config)
+                let ptr = cache.allocate(size, &self.config)?;
+                cache.live_blocks += 1;
+                Ok(ptr)
             } else {
                 Err(ZiporaError::invalid_data("Failed to initialize thread cache"))
             }
@@ -437,6 +442,7 @@ impl ThreadLocalMemoryPool {
             let mut cache_opt = cache_cell.borrow_mut();
             
             if let Some(ref mut cache) = *cache_opt {
+                cache.live_blocks = cache.live_blocks.saturating_sub(1);
                 cache.deallocate(ptr, size, &self.config)
             } else {
                 // No thread-local cache, use global pool directly
@@ -494,9 +500,16 @@ impl ThreadLocalMemoryPool {
     }
 
     /// Clear thread-local caches (for cleanup)
+    ///
+    /// The calling thread's cache and its arenas are released only when no allocation
+    /// carved from them is still live (the cache is shared by all pools used on the
+    /// thread); otherwise the call leaves the cache in place.
     pub fn clear_caches(&self) {
         CURRENT_CACHE.with(|cache_cell| {
-            *cache_cell.borrow_mut() = None;
+            let mut cache_opt = cache_cell.borrow_mut();
+            if cache_opt.as_ref().map_or(true, |cache| cache.live_blocks == 0) {
+                *cache_opt = None;
+            }
         });
     }
 }
